@@ -36,6 +36,7 @@ KEY_GROUPS = key_pool()
 KEYS = [k for g in KEY_GROUPS for k in g]
 MACRO_GROUPS = key_pool(bits=12, groups=3, per=6, prefix='m')
 MACROS = [k for g in MACRO_GROUPS for k in g]
+IDENT_GROUPS = key_pool(bits=8, groups=2, per=14, prefix='v')      # identifiers for the parser's scope tables: collide at every capacity up to 256
 DYNAMIC = ['__LINE__', '__FILE__', '__COUNTER__', '__TIMESTAMP__', '__BASE_FILE__', '__DATE__', '__TIME__']
 
 
@@ -101,7 +102,7 @@ class C17:
     rule = ('cases: (a) operation histories (3..120 drawn steps, churn bursts of up to 700 put+delete pairs of never-used keys) over 60 keys in 6 groups sharing the low 8 bits of their '
             'FNV-1 hash, replayed by a native driver against hashmap.c of the tree under test and a flat-array model with all 60 keys queried after every step; '
             '(b) libFuzzer (ASan/UBSan) over the same command language, oracle in the target; (c) #define/#undef/-D/-U histories over 18 macro names in 3 groups sharing 12 hash bits plus '
-            'the 7 predefined dynamic macros, probed by #ifdef and expansion after every step, vs a dict model and gcc/clang. non-trivial = history has put after delete in the same collision '
+            'the 7 predefined dynamic macros, probed by #ifdef and expansion after every step, vs a dict model and gcc/clang; (d) block-scope histories: nested blocks declaring objects, typedef names, enumerators and struct tags over 28 identifiers in 2 groups sharing 8 hash bits (up to 20 declarations per block, so scope tables are rehashed), every visible name evaluated after each block entry and exit, vs a scope-stack model and gcc/clang. non-trivial = history has put after delete in the same collision '
             'group, a churn burst, or spans a rehash; distinct by history hash.')
     assumptions = ['the reference model (flat array / Python dict) is obviously correct; gcc/clang confirm the end-to-end model',
                    'libFuzzer runs are pinned only approximately by -seed; a saved crash artefact is the reproducible unit']
@@ -113,8 +114,11 @@ class C17:
         build_native(tree, fuzz=True)
 
     def example(self, ch, ctx):
-        if ch.int(0, 2) == 0:
+        k = ch.int(0, 5)
+        if k < 2:
             return self.e2e(ch, ctx)
+        if k == 2:
+            return self.scopes(ch, ctx)
         st = ctx.stats
         drv, keys, _ = build_native(ctx.tree)
         hists = []
@@ -149,6 +153,123 @@ class C17:
             rep = {'kind': 'hashmap', 'ops': hists[hi], 'signature': core.shash(repr(hists[hi]))}
             raise core.Violation(rep, 'hashmap.c diverges from the reference dictionary: rc=%s %s\nhistory (kind,key): %s' % (r.rc, (bad or lines[-1:] or [r.err[-200:]])[0], hists[hi][:200]))
 
+    # ---- (d) the parser's scope tables: declaration / lookup / scope-exit histories
+    def scopes(self, ch, ctx):
+        """A function body of nested blocks.  Each block declares objects, typedef names, enumerators and struct tags whose
+        names collide in the low 8 hash bits (and enough of them to force rehashes of a scope's table), then evaluates every
+        name of the pool that is visible; after a block is left the probes are repeated.  Model: a stack of Python dicts."""
+        st = ctx.stats
+        names = IDENT_GROUPS[ch.int(0, 1)] if ch.int(0, 3) else [n for g in IDENT_GROUPS for n in g]
+        lines = []; exp = []
+        var = [{}]; tag = [{}]
+        feat = set()
+        counter = [0]
+
+        def probe(ind):
+            k = counter[0]; counter[0] += 1
+            vis = {}
+            for sc in var:
+                vis.update(sc)
+            terms = []; total = 0
+            for n in ch.sample(names, min(len(names), 6)):
+                if n not in vis:
+                    continue
+                kind, val = vis[n]
+                if kind in ('obj', 'enum'):
+                    terms.append(n); total += val
+                else:                                   # typedef name: its size tells which declaration is visible
+                    terms.append('(int)sizeof(%s)' % n); total += val
+            tv = {}
+            for sc in tag:
+                tv.update(sc)
+            for n in ch.sample(names, 3):
+                if n in tv:
+                    terms.append('(int)sizeof(struct %s)' % n); total += tv[n]
+            lines.append('%sprintf("P%d %%d\\n", 0%s);' % (ind, k, ''.join(' + ' + t for t in terms)))
+            exp.append(('P%d' % k, str(total)))
+
+        def block(depth, ind):
+            n_decl = ch.choice([1, 2, 3, 5, 13, 20]) if depth < 2 else ch.int(1, 4)
+            if n_decl >= 13:
+                feat.add('scope-table-rehash')
+            for _ in range(n_decl):
+                n = ch.choice(names)
+                r = ch.int(0, 9)
+                counter[0] += 1
+                v = counter[0] * 7 % 1000 + 1
+                if r < 5:
+                    if n in var[-1]:
+                        continue
+                    lines.append('%sint %s = %d;' % (ind, n, v)); var[-1][n] = ('obj', v)
+                elif r < 7:
+                    if n in var[-1]:
+                        continue
+                    sz = ch.choice([1, 2, 4, 8, 16])
+                    lines.append('%stypedef char %s[%d];' % (ind, n, sz)); var[-1][n] = ('typedef', sz); feat.add('typedef-name')
+                elif r < 8:
+                    if n in var[-1]:
+                        continue
+                    lines.append('%senum { %s = %d };' % (ind, n, v)); var[-1][n] = ('enum', v); feat.add('enumerator')
+                else:
+                    if n in tag[-1]:
+                        continue
+                    sz = ch.choice([1, 3, 5, 9])
+                    lines.append('%sstruct %s { char c[%d]; };' % (ind, n, sz)); tag[-1][n] = sz; feat.add('tag')
+                if any(n in sc for sc in var[:-1]) or any(n in sc for sc in tag[:-1]):
+                    feat.add('shadowing')
+            probe(ind)
+            for _ in range(ch.int(0, 2) if depth < 3 else 0):
+                lines.append(ind + '{'); var.append({}); tag.append({})
+                block(depth + 1, ind + '  ')
+                var.pop(); tag.pop(); lines.append(ind + '}')
+                probe(ind)            # the outer declarations are visible again
+
+        # file scope declarations first
+        for _ in range(ch.int(0, 4)):
+            n = ch.choice(names)
+            if n not in var[0]:
+                counter[0] += 1
+                v = counter[0] * 7 % 1000 + 1
+                lines.append('int %s = %d;' % (n, v)); var[0][n] = ('obj', v)
+        lines.append('int printf(const char *, ...);')
+        lines.append('int main(void) {'); var.append({}); tag.append({})
+        block(0, '  ')
+        lines.append('  return 0;'); lines.append('}')
+        src = '\n'.join(lines) + '\n'
+        d = ctx.fresh_dir()
+        try:
+            p = os.path.join(d, 's.c'); open(p, 'w').write(src)
+            outs = {}
+            for comp in ('gcc', 'clang', 'chibicc'):
+                exe = os.path.join(d, comp + '.exe')
+                cmd = ([ctx.tree.cc, '-o', exe, p] if comp == 'chibicc' else [comp, '-O0', '-w', '-std=gnu11', '-o', exe, p])
+                r = core.run(cmd, timeout=30)
+                if r.rc != 0:
+                    outs[comp] = 'COMPILE-FAIL ' + r.err.strip().split('\n')[-1][-200:]
+                    continue
+                rr = core.run([exe], timeout=10)
+                outs[comp] = rr.out if rr.rc == 0 else 'RUN-FAIL rc=%s' % rr.rc
+            want = ''.join('%s %s\n' % e for e in exp)
+            if outs['gcc'] != outs['clang'] or outs['gcc'].startswith(('COMPILE-FAIL', 'RUN-FAIL')):
+                st.count('ref_reject_or_disagree')
+                if st.counters['ref_reject_or_disagree'] <= 2:
+                    st.samples.append({'ref_reject': outs['gcc'][:200], 'src': src[:800]})
+                return
+            if outs['gcc'] != want:
+                st.count('model_disagree')
+                if st.counters['model_disagree'] <= 2:
+                    st.samples.append({'model_disagree': [outs['gcc'][:300], want[:300]], 'src': src[:1200]})
+                return
+            for f in feat:
+                st.tag('scopes:' + f)
+            st.tag('scopes')
+            st.case(core.shash(src) if (feat & {'shadowing', 'scope-table-rehash'}) else None, sample=({'scopes': src[:700]} if len([x for x in st.samples if 'scopes' in x]) < 1 else None))
+            if outs['chibicc'] != want:
+                raise core.Violation({'kind': 'scopes', 'source': src, 'expected': want, 'signature': core.shash(src)},
+                                     'identifier lookup differs from the scope-stack model\nexpected %r\nobserved %r\n--- source ---\n%s' % (want[:400], outs['chibicc'][:400], src[:3000]))
+        finally:
+            shutil.rmtree(d, ignore_errors=True)
+
     # ---- (c) end-to-end macro histories
     def e2e(self, ch, ctx):
         st = ctx.stats
@@ -156,8 +277,8 @@ class C17:
         opts = []
         feat = set()
         names = MACROS
-        for _ in range(ch.int(0, 4)):
-            n = ch.choice(names)
+        for _ in range(ch.int(0, 6)):
+            n = ch.choice(names[:3]) if ch.int(0, 9) < 7 else ch.choice(names)      # histories on one name: -D -U -D ...
             if ch.int(0, 9) < 6:
                 v = ch.int(1, 99)
                 opts.append('-D%s=%d' % (n, v)); model[n] = str(v)
@@ -251,6 +372,14 @@ class C17:
             if r.rc != 0 or 'BAD' in r.out or 'ABORT' in r.out:
                 return True, 'driver: rc=%s %s' % (r.rc, r.out.strip().split('\n')[-1][:300])
             return False, 'hashmap agrees with the reference on this history'
+        if rep['kind'] == 'scopes':
+            p = os.path.join(wd, 's.c'); open(p, 'w').write(rep['source'])
+            exe = os.path.join(wd, 's.exe')
+            r = core.run([tree.cc, '-o', exe, p], timeout=30)
+            if r.rc != 0:
+                return True, 'chibicc rejects: ' + r.err.strip().split('\n')[-1][-200:]
+            rr = core.run([exe], timeout=10)
+            return (rr.out != rep['expected']), 'expected %r observed %r' % (rep['expected'][:300], rr.out[:300])
         if rep['kind'] == 'fuzz':
             _, _, fz = build_native(tree, fuzz=True)
             p = os.path.join(wd, 'crash.bin')
